@@ -223,7 +223,10 @@ def check_tensor(spec, ctx):
     co = (np.array(spec["coeffs"] * (total // len(spec["coeffs"]) + 1))[:total]).reshape(shape + vshape)
     f = ctx.sut(bspline.BSplineFunc, kvs, co.copy(), what="BSplineFunc")
     grid = [np.array([x for _, x in pts]) for pts in spec["grid"]]
-    grid = [np.sort(g) for g in grid]
+    if not spec.get("unsorted"):
+        grid = [np.sort(g) for g in grid]      # otherwise: generation order (unsorted, possibly with repeated points)
+    elif any(np.any(np.diff(g) < 0) for g in grid):
+        ctx.flag("unsorted_grid_axis")
     got = np.asarray(ctx.sut(f.grid_eval, grid, what="grid_eval"))
     ref = rb.tp_eval(kns, co, grid)
     sc = rb.tp_eval([(kn, p) for kn, p in kns], np.abs(co), grid) + 1e-300
@@ -288,10 +291,11 @@ def _grid_ok(kvss, grid, der):
 def strat_tensor(draw):
     d = draw(st.integers(1, 3))
     kvss = [draw(gk.knotvec(pmin=0, pmax=4 if d < 3 else 3, nmax=3, decades=2)) for _ in range(d)]
-    grid = [draw(gk.points_in(k, 1, 3)) for k in kvss]
+    unsorted = draw(st.booleans())
+    grid = [draw(gk.points_in(k, 1, 5 if unsorted else 3)) for k in kvss]
     vshape = draw(st.sampled_from([[], [], [2], [3], [2, 2]]))
     coeffs = [draw(st.integers(-16, 16)) / 4.0 for _ in range(17)]
-    return {"kvs": kvss, "grid": grid, "vshape": vshape, "coeffs": coeffs}
+    return {"kvs": kvss, "grid": grid, "vshape": vshape, "coeffs": coeffs, "unsorted": unsorted}
 
 
 SUBCHECKS = [
